@@ -60,6 +60,42 @@ Bundle == IF EmitMode = "print"
                         THEN [i \in 1..Len(CallSeq(State)) |-> OutOf(State, CallSeq(State)[i])]
                         ELSE <<>>]
 
+(***************************************************************************)
+(* Shape-exhaustive bundles: instead of exploring histories breadth-first  *)
+(* (which reaches every forest only up to 4-5 slots), start in EVERY       *)
+(* ordered forest with up to MaxSlots nodes - one top-level chain, nodes   *)
+(* numbered in pre-order, given as a parent vector - built by its          *)
+(* canonical call path (new_node / insert_after for the roots,             *)
+(* append_value for the others), and emit the bundle of that state only.   *)
+(* This covers single-call behaviour on larger shapes (6-8 nodes, several  *)
+(* nesting levels with siblings on each) that random histories rarely hit. *)
+(***************************************************************************)
+RECURSIVE PathUpV(_, _)
+PathUpV(p, j) == IF j = 0 THEN <<0>> ELSE <<j>> \o PathUpV(p, p[j])
+IsPreV(p)   == \A i \in DOMAIN p : p[i] \in (IF i = 1 THEN {0} ELSE Rng(PathUpV(p, i - 1)))
+ShapeVectors(k) == { p \in [1..k -> 0..(k - 1)] : IsPreV(p) }
+PrevRoot(p, i) == IF \E r \in 1..(i - 1) : p[r] = 0
+                  THEN CHOOSE r \in 1..(i - 1) : p[r] = 0 /\ \A q \in (r + 1)..(i - 1) : p[q] # 0
+                  ELSE 0
+CanonStep(p, i) ==
+  IF p[i] = 0
+  THEN <<[op |-> "new", a |-> i, v |-> i]>>
+         \o (IF PrevRoot(p, i) = 0 THEN <<>>
+             ELSE <<[op |-> "insert_after", a |-> PrevRoot(p, i), b |-> i, checked |-> TRUE]>>)
+  ELSE <<[op |-> "append_value", a |-> p[i], b |-> i, v |-> i]>>
+RECURSIVE CanonPath(_, _)
+CanonPath(p, i) == IF i > Len(p) THEN <<>> ELSE CanonStep(p, i) \o CanonPath(p, i + 1)
+RECURSIVE RunPath(_, _)
+RunPath(S, pth) == IF pth = <<>> THEN S ELSE RunPath(Step(S, Head(pth)).st, Tail(pth))
+
+InitShapes ==
+  \E k \in 1..MaxSlots : \E p \in ShapeVectors(k) :
+     LET pth == CanonPath(p, 1)  S == RunPath(InitState(0), pth) IN
+     /\ count = S.count /\ live = S.live /\ f = S.f /\ avail = S.avail /\ retired = S.retired
+     /\ gen = S.gen /\ val = S.val /\ capLow = S.capLow /\ tok = S.tok /\ nissued = S.nissued
+     /\ path = pth /\ last = NoResult
+NextNone == FALSE /\ UNCHANGED vars
+
 Emit == /\ \A c \in GenCalls(State) : SameEffectU(State, c)
         /\ EmitMode = "print" => PrintLaws(State)
         /\ IF EmitMode = "none" THEN TRUE ELSE PrintT(<<"BUNDLE", ToJson(Bundle)>>)
